@@ -58,6 +58,11 @@ var StringFormats = map[string][]string{
 	"ObjectId":  {"507f1f77bcf86cd799439011", "5f1f77bcf86cd79943901100"},
 	"ulid":      {"01ARZ3NDEKTSV4RRFFQ69G5FAV", "01BX5ZZKBKACTAV9WEVGEMMVRZ"},
 	"cidr":      {"10.0.0.0/8", "192.168.1.0/24"},
+	"bsonobjectid": {"507f1f77bcf86cd799439011", "5f1f77bcf86cd79943901100"},
+	"uuid3":     {"a3bb189e-8bf9-3888-9912-ace4e6543002", "6fa459ea-ee8a-3ca4-894e-db77e160355e"},
+	"uuid5":     {"886313e1-3b8a-5372-9b90-0c9aee199e5d", "2ed6657d-e927-568b-95e1-2665a8aea6a2"},
+	"isbn10":    {"0306406152", "0198526636"},
+	"isbn13":    {"9780306406157", "9783161484100"},
 }
 
 var stringFormatNames = sortedKeys(StringFormats)
@@ -82,6 +87,10 @@ type Opts struct {
 	Refs        []string                      // definition names that may be $ref'd
 	AllOfRefs   []string                      // definition names usable as allOf members (nil: Refs); kept acyclic by the caller
 	allOfSet    bool
+	// AllOfOK / AllOfUse let the caller keep the allOf ancestry of a definition free
+	// of cycles and of repeated ancestors (go-openapi rejects both as "circular ancestry").
+	AllOfOK  func(ref string) bool
+	AllOfUse func(ref string)
 	MaxDepth    int
 	Tuples      bool
 	Untyped     bool
@@ -101,10 +110,26 @@ type Opts struct {
 }
 
 func (o *Opts) allOfRefs() []string {
+	base := o.Refs
 	if o.allOfSet {
-		return o.AllOfRefs
+		base = o.AllOfRefs
 	}
-	return o.Refs
+	if o.AllOfOK == nil {
+		return base
+	}
+	var out []string
+	for _, r := range base {
+		if o.AllOfOK(r) {
+			out = append(out, r)
+		}
+	}
+	return out
+}
+
+func (o *Opts) useAllOf(r string) {
+	if o.AllOfUse != nil {
+		o.AllOfUse(r)
+	}
 }
 
 // WithAllOfRefs returns a copy of o whose allOf members may only name refs.
@@ -395,12 +420,13 @@ func Schema(t *rapid.T, label string, o *Opts, depth int) J {
 		var members A
 		usedRef := map[string]bool{}
 		for i := 0; i < n; i++ {
-			if chance(t, fmt.Sprintf("%s_aref%d", label, i), 60) {
-				r := rapid.SampledFrom(o.allOfRefs()).Draw(t, fmt.Sprintf("%s_ar%d", label, i))
+			if cands := o.allOfRefs(); len(cands) > 0 && chance(t, fmt.Sprintf("%s_aref%d", label, i), 60) {
+				r := rapid.SampledFrom(cands).Draw(t, fmt.Sprintf("%s_ar%d", label, i))
 				if usedRef[r] {
 					continue
 				}
 				usedRef[r] = true
+				o.useAllOf(r)
 				members = append(members, J{"$ref": "#/definitions/" + r})
 			} else {
 				m := J{}
@@ -409,7 +435,12 @@ func Schema(t *rapid.T, label string, o *Opts, depth int) J {
 			}
 		}
 		if len(members) == 0 {
-			members = append(members, J{"$ref": "#/definitions/" + o.allOfRefs()[0]})
+			if cands := o.allOfRefs(); len(cands) > 0 {
+				o.useAllOf(cands[0])
+				members = append(members, J{"$ref": "#/definitions/" + cands[0]})
+			} else {
+				members = append(members, J{"type": "object", "properties": J{"inherited" + PlainName(t, label+"_fallback"): J{"type": "string"}}})
+			}
 		}
 		s["allOf"] = members
 	case "ref":
@@ -492,10 +523,11 @@ func ObjectInto(t *rapid.T, label string, o *Opts, depth int, s J) {
 		n := rapid.IntRange(1, 2).Draw(t, label+"_oan")
 		usedRef := map[string]bool{}
 		for i := 0; i < n; i++ {
-			if chance(t, fmt.Sprintf("%s_oaref%d", label, i), 70) {
-				r := rapid.SampledFrom(o.allOfRefs()).Draw(t, fmt.Sprintf("%s_oar%d", label, i))
+			if cands := o.allOfRefs(); len(cands) > 0 && chance(t, fmt.Sprintf("%s_oaref%d", label, i), 70) {
+				r := rapid.SampledFrom(cands).Draw(t, fmt.Sprintf("%s_oar%d", label, i))
 				if !usedRef[r] {
 					usedRef[r] = true
+					o.useAllOf(r)
 					members = append(members, J{"$ref": "#/definitions/" + r})
 				}
 			} else {
